@@ -456,6 +456,448 @@ OPS.update({
     "glwe_mul_const_assign": (sh_mul_const_assign, ALL, True, 2),
 })
 
+
+# ------------------------------------------------------------------------------------------------
+# table 4 (Model/ScratchOps3.lean)
+# ------------------------------------------------------------------------------------------------
+def sh_prep(rng, big):
+    # prepared matrix: dsize 1 keeps dnum free
+    r = rng.range(1, 2)
+    d = key_part(rng, big, r, r)
+    d.update({"rank": r, "nlwe": rng.range(1, 4), "natk": rng.range(1, 3), "ksglwe": rng.range(0, 1)})
+    return d
+
+
+def sh_mul_plain(rng, big):
+    ab2k = rng.choice(RADICES)
+    m = 6 if not big else 24
+    d = {"rank": rng.range(0, 2), "size": rng.range(1, m), "b2k": rng.choice(RADICES) if rng.chance(1, 3) else ab2k,
+         "asize": rng.range(1, m), "ab2k": ab2k, "bsize": rng.range(1, m)}
+    d["arank"] = d["rank"]
+    d["ea"] = rng.range(max(1, d["asize"] - 1), d["asize"])
+    d["eb"] = rng.range(max(1, d["bsize"] - 1), d["bsize"])
+    d["off"] = rng.choice([0, ab2k - 1, ab2k, 2 * ab2k + 3, min(d["ea"], d["eb"]) * ab2k, min(d["ea"], d["eb"]) * ab2k + 5])
+    return d
+
+
+def sh_mul_plain_assign(rng, big):
+    d = sh_mul_plain(rng, big)
+    d["b2k"] = d["ab2k"]
+    # res is the left operand: `ea` = limbs of the plaintext, `eb` = effective limbs of res
+    d["eb"] = rng.range(max(1, d["size"] - 1), d["size"])
+    d["ea"] = rng.range(max(1, d["bsize"] - 1), d["bsize"])
+    d["off"] = rng.choice([0, d["b2k"], min(d["ea"], d["eb"]) * d["b2k"]])
+    return d
+
+
+def sh_tensor(rng, big):
+    d = sh_mul_plain(rng, big)
+    d["rank"] = d["arank"] = rng.range(1, 2)
+    return d
+
+
+def sh_tensor_sq(rng, big):
+    d = sh_tensor(rng, big)
+    d["off"] = rng.choice([0, d["ab2k"], d["ea"] * d["ab2k"], d["ea"] * d["ab2k"] + 5])
+    return d
+
+
+def brk_part(rng, d, big):
+    d["bsize"] = rng.range(2, 4 if not big else 12)       # a GGSW needs size > dsize
+    d["bdnum"] = rng.range(1, d["bsize"])
+    d["bb2k"] = rng.choice(RADICES)
+    d["block"] = rng.choice([1, 2, 3])
+    d["nlwe"] = d["block"] * rng.range(1, 3)
+    d["ext"] = 1
+    return d
+
+
+def sh_blind_rotation(rng, big):
+    d = {"rank": rng.range(1, 2 if not rng.chance(1, 6) else 3), "size": rng.range(1, 4)}
+    brk_part(rng, d, big)
+    d["b2k"] = d["bb2k"]
+    if d["block"] > 1 and rng.chance(1, 3):
+        d["ext"] = 2
+    return d
+
+
+def sh_brk_key(rng, big):
+    d = {"rank": rng.range(1, 2)}
+    brk_part(rng, d, big)
+    d["bsize"] = max(d["bsize"], 2)
+    return d
+
+
+def cbt_part(rng, big):
+    """shapes of a circuit bootstrapping: result GGSW, blind-rotation key, automorphism keys (k), tensor key (t)"""
+    r = rng.range(1, 2)
+    d = {"rank": r}
+    brk_part(rng, d, big)
+    d["bsize"] = max(d["bsize"], 2)
+    d["bdnum"] = rng.range(1, d["bsize"])
+    d.update({"krin": r, "krout": r, "ksize": rng.range(2, 5), "kb2k": rng.choice(RADICES), "dsize": 1})
+    d["dnum"] = rng.range(1, d["ksize"])
+    d.update({"size": rng.range(2, 4), "b2k": rng.choice(RADICES)})
+    # the LUT of the circuit bootstrapping holds 2^(b2k·(rdnum-1)) (asserted < 2^64; `lut.set` wants b2k·rdnum within i64)
+    d["rdnum"] = rng.range(1, max(1, min(d["size"], 56 // d["b2k"])))
+    d.update({"tsize": rng.range(2, 5), "tb2k": rng.choice(RADICES), "tdsize": 1})
+    d["tdnum"] = rng.range(1, d["tsize"])
+    d["natk"] = 5
+    d["iters"] = 5
+    return d
+
+
+def sh_cbt(rng, big):
+    return cbt_part(rng, big)
+
+
+def sh_bdd_key(rng, big):
+    d = cbt_part(rng, big)
+    d.update({"lksize": rng.range(2, 4), "lkb2k": rng.choice(RADICES)})
+    d["lkdnum"] = rng.range(1, d["lksize"])
+    d["ksglwe"] = rng.range(0, 1)
+    if d["ksglwe"]:
+        d.update({"gkrout": 1, "gksize": rng.range(2, 6), "gkb2k": d["lkb2k"], "gkdsize": 1})
+        d["gkdnum"] = rng.range(1, d["gksize"])
+    return d
+
+
+def sh_fhe_uint_prepare(rng, big):
+    d = sh_bdd_key(rng, big)
+    # block = 1 selects `execute_standard`, whose debug assertion `lwe.n() == brk.n_lwe()` rejects the LWE that
+    # `fhe_uint_prepare` extracts (taken with the GLWE's degree): block-binary keys only
+    if d["block"] == 1:
+        d["block"] = 2
+        d["nlwe"] = 2 * rng.range(1, 3)
+    d.update({"arank": d["rank"], "asize": rng.range(1, 3), "ab2k": rng.choice(RADICES), "threads": rng.range(1, 3),
+              "bitsper": rng.range(1, 2), "idx": 1})
+    return d
+
+
+def sh_bdd_rot(rng, big):
+    d = sh_cmux(rng, big)
+    d["size"] = max(d["size"], 2)          # the GGSW forms need size > dsize
+    d.update({"bitmask": rng.range(1, 3), "cells": rng.range(1, 4), "steps": rng.range(1, 4)})
+    return d
+
+
+def sh_bdd_retrieval(rng, big):
+    d = sh_cswap(rng, big)
+    d["asize"] = d["size"]
+    d["steps"] = rng.range(1, 4)
+    return d
+
+
+def sh_bdd_2w(rng, big):
+    d = sh_bdd(rng, big)
+    d["bits"] = 32
+    d.update({"tsize": rng.range(2, 5), "tb2k": d["b2k"], "tdsize": 1})
+    d["tdnum"] = rng.range(1, d["tsize"])
+    d["rounds"] = 5
+    d["iters"] = 5
+    return d
+
+
+def sh_ckks_mul(rng, big):
+    r = rng.range(1, 2)
+    b2k = rng.choice(RADICES)
+    d = {"rank": r, "size": rng.range(2, 6), "b2k": b2k}
+    tsk_part(rng, d)
+    d["tb2k"] = b2k if not rng.chance(1, 4) else d["tb2k"]
+    d["ea"] = rng.range(max(1, d["size"] - 1), d["size"])
+    d["eb"] = rng.range(max(1, d["size"] - 1), d["size"])
+    d["off"] = rng.choice([min(d["ea"], d["eb"]) * b2k, min(d["ea"], d["eb"]) * b2k + 5, (min(d["ea"], d["eb"]) + 1) * b2k])
+    d.update({"cnt": rng.range(1, 5), "levels": 0})
+    d["levels"] = 0 if d["cnt"] <= 2 else (1 if d["cnt"] <= 4 else 2)
+    return d
+
+
+def sh_ckks_mul_pt(rng, big):
+    d = sh_mul_plain(rng, big)
+    d["b2k"] = d["ab2k"]
+    d["rank"] = d["arank"] = 1
+    d["eb"] = d["bsize"]
+    d["off"] = min(d["ea"], d["eb"]) * d["b2k"]
+    d["ptk"] = d["bsize"] * d["b2k"]       # CKKSMeta of the plaintext: min_k = bsize limbs
+    return d
+
+
+def sh_ckks_all(rng, big):
+    d = sh_ckks_mul(rng, big)
+    d["bsize"] = rng.range(1, 4)
+    d["ptk"] = d["bsize"] * d["b2k"]
+    d.update({"arank": d["rank"], "asize": d["size"], "ab2k": d["b2k"]})
+    d.update({"krin": d["rank"], "krout": d["rank"], "ksize": rng.range(2, 6), "kb2k": d["b2k"], "dsize": 1})
+    d["dnum"] = rng.range(1, d["ksize"])
+    return d
+
+
+OPS.update({
+    "gglwe_prepare": (sh_prep, ALL, True, 8),
+    "ggsw_prepare": (sh_prep, ALL, True, 8),
+    "glwe_switching_key_prepare": (sh_prep, ALL, True, 8),
+    "glwe_automorphism_key_prepare": (sh_prep, ALL, True, 8),
+    "prepare_tensor_key": (sh_prep, ALL, True, 8),
+    "gglwe_to_ggsw_key_prepare": (sh_prep, ALL, True, 8),
+    "lwe_switching_key_prepare": (sh_prep, ALL, True, 8),
+    "lwe_to_glwe_key_prepare": (sh_prep, ALL, True, 8),
+    "glwe_to_lwe_key_prepare": (sh_prep, ALL, True, 8),
+    "glwe_switching_key_compressed_encrypt_sk": (sh_key(None, None), ALL, True, 2),
+    "glwe_automorphism_key_compressed_encrypt_sk": (sh_key("same", None), ALL, True, 2),
+    "glwe_tensor_key_compressed_encrypt_sk": (sh_key("same", None), ALL, True, 2),
+    "gglwe_to_ggsw_key_compressed_encrypt_sk": (sh_key("same", None), ALL, True, 2),
+    "glwe_mul_plain": (sh_mul_plain, ALL, True, 8),
+    "glwe_mul_plain_assign": (sh_mul_plain_assign, ALL, True, 8),
+    "glwe_tensor_apply": (sh_tensor, ALL, True, 8),
+    "glwe_tensor_apply_add_assign": (sh_tensor, ALL, True, 8),
+    "glwe_tensor_square_apply": (sh_tensor_sq, ALL, True, 8),
+    "blind_rotation_execute": (sh_blind_rotation, ALL, True, 8),
+    "blind_rotation_key_encrypt_sk": (sh_brk_key, ALL, True, 8),
+    "blind_rotation_key_compressed_encrypt_sk": (sh_brk_key, ALL, True, 8),
+    "blind_rotation_key_prepare": (sh_brk_key, ALL, True, 8),
+    "circuit_bootstrapping_execute": (sh_cbt, ALL, True, 32),
+    "circuit_bootstrapping_key_encrypt_sk": (sh_cbt, ALL, True, 32),
+    "circuit_bootstrapping_key_prepare": (sh_cbt, ALL, True, 32),
+    "bdd_key_encrypt_sk": (sh_bdd_key, ALL, True, 32),
+    "prepare_bdd_key": (sh_bdd_key, ALL, True, 32),
+    "fhe_uint_prepare": (sh_fhe_uint_prepare, ALL, True, 32),
+    "glwe_blind_rotation": (sh_bdd_rot, ALL, True, 8),
+    "ggsw_to_ggsw_blind_rotation": (sh_bdd_rot, ALL, True, 8),
+    "scalar_to_ggsw_blind_rotation": (sh_bdd_rot, ALL, True, 8),
+    "glwe_blind_selection": (sh_bdd_rot, ALL, True, 32),
+    "glwe_blind_retrieval": (sh_bdd_retrieval, ALL, True, 8),
+    "retrieve": (sh_bdd_rot, ALL, True, 8),
+    "bdd_2w_to_1w": (sh_bdd_2w, ALL, True, 32),
+    "fhe_uint_encrypt_sk": (sh_glwe, ALL, True, 32),
+    "fhe_uint_decrypt": (sh_glwe, ALL, True, 32),
+    "ckks_mul": (sh_ckks_mul, REF, False, 8),
+    "ckks_square": (sh_ckks_mul, REF, False, 8),
+    "ckks_mul_pt_vec_znx": (sh_ckks_mul_pt, REF, False, 8),
+    "ckks_mul_pt_vec_rnx": (sh_ckks_mul_pt, REF, False, 8),
+    "ckks_composite_ct": (sh_ckks_mul, REF, False, 8),
+    "ckks_composite_pt_vec_znx": (sh_ckks_mul_pt, REF, False, 8),
+    "ckks_composite_pt_vec_rnx": (sh_ckks_mul_pt, REF, False, 8),
+    "ckks_composite_pt_const": (sh_ckks_mul_pt, REF, False, 8),
+    "ckks_mul_many": (sh_ckks_mul, REF, False, 8),
+    "ckks_dot_product_ct": (sh_ckks_mul, REF, False, 8),
+    "ckks_all_ops": (sh_ckks_all, REF, False, 8),
+    "ckks_all_ops_with_atk": (sh_ckks_all, REF, False, 8),
+})
+
+
+# ------------------------------------------------------------------------------------------------
+# coverage accounting: every `*_tmp_bytes` query found by tools/list_tmp_bytes.py must appear here
+#   ("ops", [entries of OPS])      modelled: formula tied, the listed operations run / compared
+#   ("alias", "<query>")           returns the value of another query without an operation of its own (counted once, with it)
+#   ("internal", [entries], why)   internal helper without public operation; modelled as `tb…`, tied through the listed callers
+#   ("remainder", why)             not modelled, with the reason
+# A query found in the sources and missing here is reported as UNMODELLED (a new query shows up as uncovered).
+# ------------------------------------------------------------------------------------------------
+def _ops(*names):
+    return ("ops", list(names))
+
+
+COVERS = {
+    # poulpy-hal / back ends
+    "vec_znx_normalize_tmp_bytes": _ops("vec_znx_normalize", "vec_znx_normalize_assign"),
+    "vec_znx_lsh_tmp_bytes": _ops("vec_znx_lsh", "vec_znx_lsh_assign"),
+    "vec_znx_rsh_tmp_bytes": _ops("vec_znx_rsh", "vec_znx_rsh_assign"),
+    "vec_znx_rotate_assign_tmp_bytes": _ops("vec_znx_rotate_assign"),
+    "vec_znx_automorphism_assign_tmp_bytes": _ops("vec_znx_automorphism_assign"),
+    "vec_znx_mul_xp_minus_one_assign_tmp_bytes": _ops("vec_znx_mul_xp_minus_one_assign"),
+    "vec_znx_split_ring_tmp_bytes": _ops("vec_znx_split_ring"),
+    "vec_znx_merge_rings_tmp_bytes": _ops("vec_znx_merge_rings"),
+    "vec_znx_big_normalize_tmp_bytes": _ops("vec_znx_big_normalize"),
+    "vec_znx_big_automorphism_assign_tmp_bytes": _ops("vec_znx_big_automorphism_assign"),
+    "vec_znx_idft_apply_tmp_bytes": _ops("vec_znx_idft_apply"),
+    "vmp_prepare_tmp_bytes": _ops("vmp_prepare"),
+    "vmp_apply_dft_tmp_bytes": _ops("vmp_apply_dft"),
+    "vmp_apply_dft_to_dft_tmp_bytes": _ops("vmp_apply_dft_to_dft"),
+    "cnv_prepare_left_tmp_bytes": _ops("cnv_prepare_left", "glwe_mul_plain"),
+    "cnv_prepare_right_tmp_bytes": _ops("cnv_prepare_right", "glwe_mul_plain"),
+    "cnv_prepare_self_tmp_bytes": _ops("cnv_prepare_self", "glwe_tensor_square_apply"),
+    "cnv_apply_dft_tmp_bytes": _ops("cnv_apply_dft", "glwe_mul_plain", "glwe_tensor_apply"),
+    "cnv_by_const_apply_tmp_bytes": _ops("cnv_by_const_apply", "glwe_mul_const"),
+    "cnv_pairwise_apply_dft_tmp_bytes": _ops("cnv_pairwise_apply_dft", "glwe_tensor_apply"),
+    "rsh_tmp_bytes": ("remainder", "`VecZnx::<Vec<u8>>::rsh_tmp_bytes(n)` (poulpy-hal/src/layouts/vec_znx.rs): a static helper no operation "
+                                   "or query calls; the right-shift operations use vec_znx_rsh_tmp_bytes"),
+    # poulpy-core: encryption / decryption
+    "lwe_encrypt_sk_tmp_bytes": _ops("lwe_encrypt_sk"),
+    "lwe_decrypt_tmp_bytes": _ops("lwe_decrypt"),
+    "glwe_encrypt_sk_tmp_bytes": _ops("glwe_encrypt_sk", "glwe_encrypt_zero_sk"),
+    "glwe_encrypt_pk_tmp_bytes": _ops("glwe_encrypt_pk", "glwe_encrypt_zero_pk"),
+    "glwe_decrypt_tmp_bytes": _ops("glwe_decrypt"),
+    "glwe_compressed_encrypt_sk_tmp_bytes": _ops("glwe_compressed_encrypt_sk"),
+    "gglwe_encrypt_sk_tmp_bytes": _ops("gglwe_encrypt_sk"),
+    "gglwe_compressed_encrypt_sk_tmp_bytes": _ops("gglwe_compressed_encrypt_sk"),
+    "ggsw_encrypt_sk_tmp_bytes": _ops("ggsw_encrypt_sk"),
+    "ggsw_compressed_encrypt_sk_tmp_bytes": _ops("ggsw_compressed_encrypt_sk"),
+    "glwe_secret_tensor_prepare_tmp_bytes": _ops("glwe_secret_tensor_prepare"),
+    "glwe_switching_key_encrypt_sk_tmp_bytes": _ops("glwe_switching_key_encrypt_sk"),
+    "glwe_switching_key_compressed_encrypt_sk_tmp_bytes": _ops("glwe_switching_key_compressed_encrypt_sk"),
+    "glwe_switching_key_encrypt_pk_tmp_bytes": ("remainder", "`unimplemented!()`: there is no formula and no operation (poulpy-core/src/encryption/glwe_switching_key.rs)"),
+    "glwe_automorphism_key_encrypt_sk_tmp_bytes": _ops("glwe_automorphism_key_encrypt_sk"),
+    "glwe_automorphism_key_compressed_encrypt_sk_tmp_bytes": _ops("glwe_automorphism_key_compressed_encrypt_sk"),
+    "glwe_automorphism_key_encrypt_pk_tmp_bytes": ("remainder", "`unimplemented!()`: there is no formula and no operation (poulpy-core/src/encryption/glwe_automorphism_key.rs)"),
+    "glwe_tensor_key_encrypt_sk_tmp_bytes": _ops("glwe_tensor_key_encrypt_sk"),
+    "glwe_tensor_key_compressed_encrypt_sk_tmp_bytes": _ops("glwe_tensor_key_compressed_encrypt_sk"),
+    "gglwe_to_ggsw_key_encrypt_sk_tmp_bytes": _ops("gglwe_to_ggsw_key_encrypt_sk"),
+    "gglwe_to_ggsw_key_compressed_encrypt_sk_tmp_bytes": _ops("gglwe_to_ggsw_key_compressed_encrypt_sk"),
+    "lwe_switching_key_encrypt_sk_tmp_bytes": _ops("lwe_switching_key_encrypt_sk"),
+    "lwe_to_glwe_key_encrypt_sk_tmp_bytes": _ops("lwe_to_glwe_key_encrypt_sk"),
+    "glwe_to_lwe_key_encrypt_sk_tmp_bytes": _ops("glwe_to_lwe_key_encrypt_sk"),
+    # poulpy-core: prepared layouts
+    "gglwe_prepare_tmp_bytes": _ops("gglwe_prepare"),
+    "ggsw_prepare_tmp_bytes": _ops("ggsw_prepare"),
+    "glwe_switching_key_prepare_tmp_bytes": _ops("glwe_switching_key_prepare"),
+    "glwe_automorphism_key_prepare_tmp_bytes": _ops("glwe_automorphism_key_prepare"),
+    "prepare_tensor_key_tmp_bytes": _ops("prepare_tensor_key"),
+    "gglwe_to_ggsw_key_prepare_tmp_bytes": _ops("gglwe_to_ggsw_key_prepare"),
+    "lwe_switching_key_prepare_tmp_bytes": _ops("lwe_switching_key_prepare"),
+    "lwe_to_glwe_key_prepare_tmp_bytes": _ops("lwe_to_glwe_key_prepare"),
+    "glwe_to_lwe_key_prepare_tmp_bytes": _ops("glwe_to_lwe_key_prepare"),
+    # poulpy-core: operations
+    "glwe_normalize_tmp_bytes": _ops("glwe_normalize", "glwe_normalize_assign"),
+    "glwe_shift_tmp_bytes": _ops("glwe_rsh", "glwe_lsh", "glwe_lsh_assign"),
+    "glwe_rotate_tmp_bytes": _ops("glwe_rotate_assign", "glwe_mul_xp_minus_one_assign"),
+    "ggsw_rotate_tmp_bytes": _ops("ggsw_rotate_assign"),
+    "glwe_mul_const_tmp_bytes": _ops("glwe_mul_const", "glwe_mul_const_assign"),
+    "glwe_mul_plain_tmp_bytes": _ops("glwe_mul_plain", "glwe_mul_plain_assign"),
+    "glwe_tensor_apply_tmp_bytes": _ops("glwe_tensor_apply", "glwe_tensor_apply_add_assign"),
+    "glwe_tensor_square_apply_tmp_bytes": _ops("glwe_tensor_square_apply"),
+    "glwe_tensor_relinearize_tmp_bytes": _ops("glwe_tensor_relinearize"),
+    "glwe_tensor_decrypt_tmp_bytes": _ops("glwe_tensor_decrypt"),
+    "glwe_keyswitch_tmp_bytes": _ops("glwe_keyswitch", "glwe_keyswitch_assign"),
+    "glwe_keyswitch_internal_tmp_bytes": ("internal", ["glwe_keyswitch", "glwe_automorphism_add"], "`pub(crate)` helper: `tbKsInternal`, its tree carries the assertion"),
+    "gglwe_product_dft_tmp_bytes": ("internal", ["glwe_keyswitch", "ggsw_expand_row", "glwe_tensor_relinearize"], "helper of the key switch: `tbGglweProduct`, its tree carries the assertion"),
+    "glwe_external_product_tmp_bytes": _ops("glwe_external_product", "glwe_external_product_assign"),
+    "glwe_external_product_internal_tmp_bytes": ("internal", ["glwe_external_product", "cmux", "cswap"], "helper of the external product: `tbExtInternal`, its tree carries the assertion"),
+    "gglwe_keyswitch_tmp_bytes": _ops("gglwe_keyswitch", "gglwe_keyswitch_assign"),
+    "gglwe_external_product_tmp_bytes": _ops("gglwe_external_product", "gglwe_external_product_assign"),
+    "ggsw_external_product_tmp_bytes": _ops("ggsw_external_product", "ggsw_external_product_assign"),
+    "ggsw_keyswitch_tmp_bytes": _ops("ggsw_keyswitch", "ggsw_keyswitch_assign"),
+    "ggsw_automorphism_tmp_bytes": _ops("ggsw_automorphism", "ggsw_automorphism_assign"),
+    "ggsw_from_gglwe_tmp_bytes": _ops("ggsw_from_gglwe"),
+    "ggsw_expand_rows_tmp_bytes": _ops("ggsw_expand_row"),
+    "glwe_automorphism_tmp_bytes": _ops("glwe_automorphism", "glwe_automorphism_assign", "glwe_automorphism_add", "glwe_automorphism_sub",
+                                        "glwe_automorphism_sub_negate"),
+    "glwe_automorphism_key_automorphism_tmp_bytes": _ops("atk_automorphism", "atk_automorphism_assign"),
+    "glwe_trace_tmp_bytes": _ops("glwe_trace"),
+    "glwe_trace_assign_tmp_bytes": _ops("glwe_trace_assign"),
+    "glwe_pack_tmp_bytes": _ops("glwe_pack"),
+    "glwe_packer_tmp_bytes": _ops("glwe_packer_add"),
+    "glwe_from_lwe_tmp_bytes": _ops("glwe_from_lwe"),
+    "lwe_from_glwe_tmp_bytes": _ops("lwe_from_glwe"),
+    "lwe_keyswitch_tmp_bytes": _ops("lwe_keyswitch"),
+    "glwe_noise_tmp_bytes": _ops("glwe_noise"),
+    "gglwe_noise_tmp_bytes": _ops("gglwe_noise"),
+    "ggsw_noise_tmp_bytes": _ops("ggsw_noise"),
+    # poulpy-bin-fhe
+    "cmux_tmp_bytes": _ops("cmux"),
+    "cswap_tmp_bytes": _ops("cswap"),
+    "execute_bdd_circuit_tmp_bytes": _ops("execute_bdd"),
+    "execute_bdd_circuit_2w_to_1w_tmp_bytes": _ops("bdd_2w_to_1w"),
+    "execute_bdd_circuit_2w_to_1w_multi_thread_tmp_bytes": _ops("bdd_2w_to_1w"),
+    "$method_name_tmp_bytes": ("alias", "execute_bdd_circuit_2w_to_1w_tmp_bytes"),
+    "$method_name_multi_thread_tmp_bytes": ("alias", "execute_bdd_circuit_2w_to_1w_multi_thread_tmp_bytes"),
+    "blind_rotation_execute_tmp_bytes": _ops("blind_rotation_execute"),
+    "execute_tmp_bytes": ("alias", "blind_rotation_execute_tmp_bytes"),
+    "blind_rotation_key_encrypt_sk_tmp_bytes": _ops("blind_rotation_key_encrypt_sk"),
+    "encrypt_sk_tmp_bytes": _ops("fhe_uint_encrypt_sk", "blind_rotation_key_encrypt_sk"),
+    "blind_rotation_key_compressed_encrypt_sk_tmp_bytes": _ops("blind_rotation_key_compressed_encrypt_sk"),
+    "blind_rotation_key_prepare_tmp_bytes": _ops("blind_rotation_key_prepare"),
+    "prepare_tmp_bytes": ("alias", "blind_rotation_key_prepare_tmp_bytes"),
+    "circuit_bootstrapping_execute_tmp_bytes": _ops("circuit_bootstrapping_execute"),
+    "circuit_bootstrapping_key_encrypt_sk_tmp_bytes": _ops("circuit_bootstrapping_key_encrypt_sk"),
+    "circuit_bootstrapping_key_prepare_tmp_bytes": _ops("circuit_bootstrapping_key_prepare"),
+    "bdd_key_encrypt_sk_tmp_bytes": _ops("bdd_key_encrypt_sk"),
+    "prepare_bdd_key_tmp_bytes": _ops("prepare_bdd_key"),
+    "fhe_uint_prepare_tmp_bytes": _ops("fhe_uint_prepare"),
+    "decrypt_tmp_bytes": _ops("fhe_uint_decrypt"),
+    "glwe_blind_rotation_tmp_bytes": _ops("glwe_blind_rotation"),
+    "ggsw_to_ggsw_blind_rotation_tmp_bytes": _ops("ggsw_to_ggsw_blind_rotation"),
+    "scalar_to_ggsw_blind_rotation_tmp_bytes": _ops("scalar_to_ggsw_blind_rotation"),
+    "glwe_blind_selection_tmp_bytes": _ops("glwe_blind_selection"),
+    "glwe_blind_retrieval_tmp_bytes": _ops("glwe_blind_retrieval"),
+    "retrieve_tmp_bytes": _ops("retrieve"),
+    # poulpy-ckks
+    "ckks_encrypt_sk_tmp_bytes": _ops("ckks_encrypt_sk"),
+    "ckks_decrypt_tmp_bytes": _ops("ckks_decrypt"),
+    "ckks_add_tmp_bytes": _ops("ckks_shift_norm"),
+    "ckks_sub_tmp_bytes": _ops("ckks_pt_vec_znx"),
+    "ckks_add_pt_const_tmp_bytes": _ops("ckks_shift_norm"),
+    "ckks_sub_pt_const_tmp_bytes": _ops("ckks_shift_norm"),
+    "ckks_add_pt_vec_znx_tmp_bytes": _ops("ckks_pt_vec_znx"),
+    "ckks_sub_pt_vec_znx_tmp_bytes": _ops("ckks_pt_vec_znx"),
+    "ckks_add_pt_vec_rnx_tmp_bytes": _ops("ckks_pt_vec_rnx"),
+    "ckks_sub_pt_vec_rnx_tmp_bytes": _ops("ckks_pt_vec_rnx"),
+    "ckks_neg_tmp_bytes": _ops("ckks_shift"),
+    "ckks_mul_pow2_tmp_bytes": _ops("ckks_shift"),
+    "ckks_div_pow2_tmp_bytes": _ops("ckks_shift"),
+    "ckks_rescale_tmp_bytes": _ops("ckks_shift"),
+    "ckks_align_tmp_bytes": _ops("ckks_shift"),
+    "ckks_extract_pt_znx_tmp_bytes": _ops("ckks_extract_pt"),
+    "ckks_rotate_tmp_bytes": _ops("ckks_rotate"),
+    "ckks_conjugate_tmp_bytes": _ops("ckks_rotate"),
+    "ckks_mul_tmp_bytes": _ops("ckks_mul", "glwe_tensor_apply", "glwe_tensor_relinearize"),
+    "ckks_square_tmp_bytes": _ops("ckks_square", "glwe_tensor_square_apply", "glwe_tensor_relinearize"),
+    "ckks_mul_pt_vec_znx_tmp_bytes": _ops("ckks_mul_pt_vec_znx", "glwe_mul_plain"),
+    "ckks_mul_pt_vec_rnx_tmp_bytes": _ops("ckks_mul_pt_vec_rnx", "glwe_mul_plain"),
+    "ckks_mul_pt_const_tmp_bytes": _ops("ckks_mul_pt_const", "glwe_mul_const"),
+    "ckks_mul_add_ct_tmp_bytes": _ops("ckks_composite_ct"),
+    "ckks_mul_sub_ct_tmp_bytes": _ops("ckks_composite_ct"),
+    "ckks_mul_add_pt_vec_znx_tmp_bytes": _ops("ckks_composite_pt_vec_znx"),
+    "ckks_mul_sub_pt_vec_znx_tmp_bytes": _ops("ckks_composite_pt_vec_znx"),
+    "ckks_dot_product_pt_vec_znx_tmp_bytes": _ops("ckks_composite_pt_vec_znx"),
+    "ckks_mul_add_pt_vec_rnx_tmp_bytes": _ops("ckks_composite_pt_vec_rnx"),
+    "ckks_mul_sub_pt_vec_rnx_tmp_bytes": _ops("ckks_composite_pt_vec_rnx"),
+    "ckks_dot_product_pt_vec_rnx_tmp_bytes": _ops("ckks_composite_pt_vec_rnx"),
+    "ckks_mul_add_pt_const_tmp_bytes": _ops("ckks_composite_pt_const"),
+    "ckks_mul_sub_pt_const_tmp_bytes": _ops("ckks_composite_pt_const"),
+    "ckks_dot_product_pt_const_tmp_bytes": _ops("ckks_composite_pt_const"),
+    "ckks_add_many_tmp_bytes": ("alias", "ckks_add_tmp_bytes"),
+    "ckks_mul_many_tmp_bytes": _ops("ckks_mul_many"),
+    "ckks_dot_product_ct_tmp_bytes": _ops("ckks_dot_product_ct"),
+    "ckks_all_ops_tmp_bytes": _ops("ckks_all_ops"),
+    "ckks_all_ops_with_atk_tmp_bytes": _ops("ckks_all_ops_with_atk"),
+}
+
+
+def coverage(repo):
+    """(report dict, problems) from the queries found in the sources and COVERS"""
+    import importlib.util
+    import os
+    here = os.path.dirname(os.path.dirname(os.path.abspath(__file__)))
+    spec = importlib.util.spec_from_file_location("list_tmp_bytes", os.path.join(here, "tools", "list_tmp_bytes.py"))
+    mod = importlib.util.module_from_spec(spec)
+    spec.loader.exec_module(mod)
+    found = mod.scan(repo)
+    problems = []
+    rep = {"total": len(found), "modelled": 0, "aliases": {}, "internal": {}, "remainder": {}, "unmodelled": [], "stale": []}
+    for q in sorted(found):
+        c = COVERS.get(q)
+        if c is None:
+            rep["unmodelled"].append(q)
+            continue
+        if c[0] == "ops":
+            missing = [o for o in c[1] if o not in OPS]
+            if missing:
+                problems.append(f"COVERS[{q}] names unknown operations {missing}")
+            rep["modelled"] += 1
+        elif c[0] == "alias":
+            if c[1] not in COVERS or COVERS[c[1]][0] not in ("ops", "internal"):
+                problems.append(f"COVERS[{q}] is an alias of {c[1]}, which is not modelled")
+            rep["aliases"][q] = c[1]
+        elif c[0] == "internal":
+            rep["internal"][q] = {"tied_through": c[1], "why": c[2]}
+            rep["modelled"] += 1
+        elif c[0] == "remainder":
+            rep["remainder"][q] = c[1]
+    rep["stale"] = sorted(q for q in COVERS if q not in found)
+    rep["distinct_after_aliases"] = rep["total"] - len(rep["aliases"])
+    return rep, problems
+
+
 USES_VMP = {o for o in OPS if o.startswith("vmp_") or any(w in o for w in ("keyswitch", "external_product", "automorphism", "trace", "cmux", "bdd", "from_lwe", "from_glwe", "ggsw_from", "expand", "pack", "relinearize", "cswap"))}
 
 
@@ -477,6 +919,40 @@ CORPUS.append(("glwe_encrypt_pk", NTT, 64, dict(size=1, b2k=7, rank=2, pksize=1)
 CORPUS.append(("lwe_encrypt_sk", ALL, 16, dict(size=4, b2k=17, nlwe=5)))      # the round-0 reproduction: 416-byte window
 CORPUS.append(("lwe_decrypt", ALL, 16, dict(size=6, b2k=13, nlwe=3)))
 CORPUS.append(("split_mut", ALL, 8, dict(cnt=2, len=320144)))                   # the bin-fhe per-thread size reported by slice C20
+
+
+# operations whose result is a GGSW (size > dsize) although their shape has no `rdnum`
+GGSW_RESULT = {"ggsw_to_ggsw_blind_rotation", "scalar_to_ggsw_blind_rotation", "glwe_blind_rotation", "glwe_blind_selection", "retrieve"}
+# operations with a costly set-up (key generation): fewer shapes
+HEAVY = {"circuit_bootstrapping_execute", "circuit_bootstrapping_key_encrypt_sk", "circuit_bootstrapping_key_prepare", "bdd_key_encrypt_sk",
+         "prepare_bdd_key", "fhe_uint_prepare", "bdd_2w_to_1w", "execute_bdd", "blind_rotation_execute", "blind_rotation_key_prepare"}
+
+
+def fixup(op, d):
+    """dependent fields after the boundary class changed the sizes: effective limb counts never exceed their operand"""
+    if "ea" in d:
+        if op == "glwe_mul_plain_assign":
+            d["eb"] = max(1, min(d["eb"], d["size"]))
+            d["ea"] = max(1, min(d["ea"], d["bsize"]))
+        elif op.startswith("ckks_mul") and "asize" not in d or op in ("ckks_square", "ckks_composite_ct", "ckks_dot_product_ct", "ckks_all_ops",
+                                                                      "ckks_all_ops_with_atk"):
+            d["ea"] = max(1, min(d["ea"], d["size"]))
+            d["eb"] = max(1, min(d["eb"], d["size"]))
+        else:
+            d["ea"] = max(1, min(d["ea"], d["asize"]))
+            d["eb"] = max(1, min(d["eb"], d["bsize"]))
+        if "ptk" in d and "bsize" in d:
+            d["ptk"] = d["bsize"] * d["b2k"]
+        # unchecked precondition of the products: the offset lies inside the product (cnv_offset_hi <= a + b limbs);
+        # beyond it `a_size + b_size - cnv_offset_hi` wraps
+        rad = d.get("ab2k", d["b2k"]) if op != "glwe_mul_plain_assign" else d["b2k"]
+        lim = (2 * d["ea"] if op == "glwe_tensor_square_apply" else d["ea"] + d["eb"])
+        d["off"] = min(d["off"], (lim + 1) * rad - 1)
+    if "bdnum" in d:
+        d["bdnum"] = min(d["bdnum"], d["bsize"])
+    if "rdnum" in d and "size" in d and "block" in d:
+        d["rdnum"] = max(1, min(d["rdnum"], d["size"], 56 // d["b2k"]))
+    return d
 
 
 def fail_key(op, n):
@@ -537,6 +1013,19 @@ def run(ctx):
         ctx.violation("C12 machinery does not build", {"broken": broken[:10]}, False)
         return ctx.finish(rule="n/a")
 
+    # ---- coverage accounting: every *_tmp_bytes query of the six crates against COVERS
+    cov, cov_problems = coverage(common.REPO)
+    broken += cov_problems
+    ctx.cov["tmp_bytes_queries"] = cov
+    ctx.log(f"tmp_bytes queries: modelled {cov['modelled']}/{cov['total']} (+{len(cov['aliases'])} pure aliases, "
+            f"{len(cov['remainder'])} justified remainder), unmodelled: {cov['unmodelled'] or 'none'}")
+    if cov["unmodelled"]:
+        ctx.violation("scratch-size queries of the library that C12 does not model: " + ", ".join(cov["unmodelled"]),
+                      {"unmodelled": cov["unmodelled"], "how": "add the query to COVERS in vlib/c12.py with the operations that model it"},
+                      False, key="tmp-bytes-query:unmodelled")
+    if cov["stale"]:
+        ctx.log("COVERS entries without a query in the sources (renamed or removed): " + ", ".join(cov["stale"]))
+
     # ---- compiled circuit widths (per-thread size of execute_bdd depends on max_state_size)
     rc, out, err = common.run([binp, "circuits"])
     from .c13 import parse_dump
@@ -562,7 +1051,7 @@ def run(ctx):
             be = bes[i % len(bes)]
             n = 1 << r.range(3, 16)
             cases.append(dict(op=op, be=be, n=n, shape=gen(r, True), mis=0, win=None, kind="tb"))
-        for i in range(n_shapes):
+        for i in range(n_shapes if op not in HEAVY else max(len(bes), n_shapes // 5)):
             be = bes[i % len(bes)]
             ns = [x for x in small_n if x >= nmin and (x >= 2 or fam(be) == "ntt120")]
             if fam(be) == "fft64" and (op in USES_VMP or op.startswith("glwe_mul_const")):
@@ -574,14 +1063,18 @@ def run(ctx):
                 logn = n.bit_length() - 1
                 shape["gap"] = r.range(0, logn)
                 shape["rounds"] = logn - shape["gap"]
+            if op == "bdd_2w_to_1w":                  # packing of the 32 output bits: log_gap = log_n - 5
+                shape["rounds"] = 5
+                shape["iters"] = n.bit_length() - 1 - 5
             if i < len(bes):                          # boundary class: single-limb operands, once per back end
-                lo = 2 if "rdnum" in shape else 1      # matrix operands need size > dsize
+                lo = 2 if ("rdnum" in shape or op in GGSW_RESULT) else 1      # matrix operands need size > dsize
                 for f in ("size", "asize", "pksize", "bsize", "lsize", "alsize"):
                     if f in shape:
-                        shape[f] = lo
+                        shape[f] = 2 if (f == "bsize" and "bdnum" in shape) else lo
                 if "rdnum" in shape:
                     shape["rdnum"] = shape["adnum"] = 1 if "adnum" in shape else shape["rdnum"]
                 n = max(n, 8) if i % 2 == 0 else n
+            fixup(op, shape)
             if not runnable:
                 cases.append(dict(op=op, be=be, n=n, shape=shape, mis=0, win=None, kind="tb"))
                 continue
